@@ -105,7 +105,17 @@ Definition perform_trials (e : env) (o : options) (img : image) (max_size : opti
                    | _ => filters
                    end in
     do outs <- evaluator_trials e 1 filters (deflate o) (optimize_alpha o) true [img];
-    Ok (evaluator_best outs max_size).
+    let result := evaluator_best outs max_size in
+    (* a compressed result of the earlier evaluation is a completed trial too *)
+    Ok (match result, eval_result with
+        | Some new, Some prev =>
+            if c_compressed prev &&
+               ((c_est prev <? c_est new) ||
+                ((c_est prev =? c_est new) && (filter_code (c_filter prev) <? filter_code (c_filter new))))
+            then Some prev else Some new
+        | None, Some prev => if c_compressed prev then Some prev else None
+        | new, _ => new
+        end).
 
 Fixpoint submitted (evs : list rd_event) : list image :=
   match evs with
